@@ -268,7 +268,7 @@ func operandOrder(fn *ssa.Function, l, r ssa.Value) string {
 			return p.Name()
 		}
 		s := ""
-		for x := range core.BackSlice(v) {
+		for x := range core.BackSliceLocal(v) {
 			if f := core.FieldOf(x); f != nil && (f.Name() == "Left" || f.Name() == "Right") {
 				if s != "" && s != strings.ToLower(f.Name()) {
 					return "both"
@@ -335,6 +335,28 @@ func newSideInfo(pk *packages.Package, fd *ast.FuncDecl) *sideInfo {
 		changed = false
 		ast.Inspect(fd.Body, func(n ast.Node) bool {
 			as, ok := n.(*ast.AssignStmt)
+			if ok && len(as.Rhs) == 1 && len(as.Lhs) > 1 {
+				// lv, rv, err := helper(left, right, …): the results of a helper of the same package carry the side of the
+				// parameter they are returned from
+				if call, isCall := as.Rhs[0].(*ast.CallExpr); isCall {
+					for i, sd := range s.calleeResultSides(pk, call) {
+						if i >= len(as.Lhs) || sd == "" {
+							continue
+						}
+						if id, isID := as.Lhs[i].(*ast.Ident); isID {
+							obj := pk.TypesInfo.Defs[id]
+							if obj == nil {
+								obj = pk.TypesInfo.Uses[id]
+							}
+							if obj != nil && s.side[obj] == "" {
+								s.side[obj] = sd
+								changed = true
+							}
+						}
+					}
+				}
+				return true
+			}
 			if !ok || len(as.Lhs) != len(as.Rhs) {
 				return true
 			}
@@ -359,6 +381,107 @@ func newSideInfo(pk *packages.Package, fd *ast.FuncDecl) *sideInfo {
 		})
 	}
 	return s
+}
+
+// calleeResultSides: for a call of a function declared in the same package, the side ("L"/"R"/"") each result derives
+// from, computed on the callee's body with its parameters bound to the sides of the arguments.
+func (s *sideInfo) calleeResultSides(pk *packages.Package, call *ast.CallExpr) []string {
+	var fobj types.Object
+	switch f := call.Fun.(type) {
+	case *ast.Ident:
+		fobj = pk.TypesInfo.Uses[f]
+	case *ast.SelectorExpr:
+		fobj = pk.TypesInfo.Uses[f.Sel]
+	}
+	if fobj == nil || fobj.Pkg() != pk.Types {
+		return nil
+	}
+	var decl *ast.FuncDecl
+	for _, file := range pk.Syntax {
+		for _, d := range file.Decls {
+			if fd, ok := d.(*ast.FuncDecl); ok && pk.TypesInfo.Defs[fd.Name] == fobj {
+				decl = fd
+			}
+		}
+	}
+	if decl == nil || decl.Body == nil || decl.Type.Results == nil {
+		return nil
+	}
+	sub := &sideInfo{side: map[types.Object]string{}, info: pk.TypesInfo}
+	i := 0
+	for _, f := range decl.Type.Params.List {
+		for _, n := range f.Names {
+			if i < len(call.Args) {
+				if sd := s.of(call.Args[i]); sd == "L" || sd == "R" {
+					sub.side[pk.TypesInfo.Defs[n]] = sd
+				}
+			}
+			i++
+		}
+	}
+	var named []types.Object
+	nres := 0
+	for _, f := range decl.Type.Results.List {
+		if len(f.Names) == 0 {
+			nres++
+		}
+		for _, n := range f.Names {
+			named = append(named, pk.TypesInfo.Defs[n])
+			nres++
+		}
+	}
+	for changed := true; changed; {
+		changed = false
+		ast.Inspect(decl.Body, func(n ast.Node) bool {
+			as, ok := n.(*ast.AssignStmt)
+			if !ok || len(as.Lhs) != len(as.Rhs) {
+				return true
+			}
+			for i, lhs := range as.Lhs {
+				id, ok := lhs.(*ast.Ident)
+				if !ok {
+					continue
+				}
+				obj := pk.TypesInfo.Defs[id]
+				if obj == nil {
+					obj = pk.TypesInfo.Uses[id]
+				}
+				if obj == nil || sub.side[obj] != "" {
+					continue
+				}
+				if sd := sub.of(as.Rhs[i]); sd == "L" || sd == "R" {
+					sub.side[obj] = sd
+					changed = true
+				}
+			}
+			return true
+		})
+	}
+	out := make([]string, nres)
+	ast.Inspect(decl.Body, func(n ast.Node) bool {
+		if _, isLit := n.(*ast.FuncLit); isLit {
+			return false
+		}
+		rs, ok := n.(*ast.ReturnStmt)
+		if !ok {
+			return true
+		}
+		if len(rs.Results) == nres {
+			for i, e := range rs.Results {
+				if sd := sub.of(e); (sd == "L" || sd == "R") && out[i] == "" {
+					out[i] = sd
+				}
+			}
+		} else if len(rs.Results) == 0 {
+			for i, o := range named {
+				if sd := sub.side[o]; sd != "" && out[i] == "" {
+					out[i] = sd
+				}
+			}
+		}
+		return true
+	})
+	return out
 }
 
 // render prints e with side-carrying identifiers replaced by side and type, so siblings can be compared up to renaming.
